@@ -42,22 +42,23 @@ Theorem C07_deliveries_ascii : forall (dec : bytes -> dres) (c : cfg) (st : asta
 Proof. exact ascii_recv_gate. Qed.
 Print Assumptions C07_deliveries_ascii.
 
-(* TCP: the statement forced by the open finding — every delivery is justified by a complete spec
-   MBAP ADU (length field = |PDU| + 1 >= 2) lying in buffer ++ chunk, OR it is the product of the
-   _process(error=True) branch: its "PDU" is the raw remainder (1..7 bytes) of the buffer *)
-Theorem C07_deliveries_tcp_partial : forall (dec : bytes -> dres) (c : cfg) (st : tstate) (chunk : bytes) st' ds o,
+(* TCP (full statement since repair 9 removed the _process(error=True) branch): every delivery is
+   justified by a complete spec MBAP ADU (length field = |PDU| + 1 >= 2, these tid/pid/uid/PDU)
+   lying in buffer ++ chunk — from ANY state, for ANY input *)
+Theorem C07_deliveries_tcp : forall (dec : bytes -> dres) (c : cfg) (st : tstate) (chunk : bytes) st' ds o,
   wfb (t_buf st) = true -> wfb chunk = true ->
   t_recv base tcp dec c st chunk = (st', ds, o) ->
-  Forall (fun d => tcp_justified (t_buf st ++ chunk) d \/ tcp_errpath (t_buf st ++ chunk) d) ds.
+  Forall (tcp_justified (t_buf st ++ chunk)) ds.
 Proof. exact tcp_recv_gate. Qed.
-Print Assumptions C07_deliveries_tcp_partial.
+Print Assumptions C07_deliveries_tcp.
 
-(* the gate does not cover the _process(error=True) branch of the socket framer: open finding *)
-Theorem C07_tcp_errpath_refuted : exists dec c chunk d,
-  t_recv base tcp dec c (t_init tcp) chunk = ({| t_buf := [1%N]; t_hdr := hdr0 |}, [d], Done) /\
-  (length chunk < 8)%nat /\ d_pdu d = chunk /\ justified_tcp chunk d = false.
-Proof. exact tcp_errpath_refuted. Qed.
-Print Assumptions C07_tcp_errpath_refuted.
+(* the input that used to produce a bogus delivery (7 bytes, first byte >= 0x80) is now just buffered *)
+Theorem C07_tcp_fixed_witness :
+  t_recv base tcp (fun _ => DMsg 128) {| c_units := [1]; c_single := Some false |} (t_init tcp)
+         [128%N; 1%N; 0%N; 0%N; 0%N; 6%N; 1%N]
+  = ({| t_buf := [128%N; 1%N; 0%N; 0%N; 0%N; 6%N; 1%N]; t_hdr := hdr0 |}, [], Done).
+Proof. vm_compute. reflexivity. Qed.
+Print Assumptions C07_tcp_fixed_witness.
 
 (* detection power of the LRC: changing any single byte of unit+PDU+LRC (in particular any single
    hex character of a frame into another hex character) breaks the check equation *)
